@@ -18,30 +18,29 @@ Record ev := {
 
 Definition is_status (e : ev) : bool := match e_kind e with EUpd => false | _ => true end.
 
-(* the status event (INSERT/DELETE) with the greatest time; ties: the later in the list *)
-Definition latest_status (evs : list ev) : option ev :=
-  fold_left (fun best e =>
-               if is_status e then
-                 match best with
-                 | Some b => if e_t b <=? e_t e then Some e else best
-                 | None => Some e
-                 end
-               else best) evs None.
+(* the event with the greatest time among those satisfying P; ties: the later in the list *)
+Definition pick_step (P : ev -> bool) (best : option ev) (e : ev) : option ev :=
+  if P e then
+    match best with
+    | Some b => if e_t b <=? e_t e then Some e else best
+    | None => Some e
+    end
+  else best.
+Definition pick_from (P : ev -> bool) (best : option ev) (evs : list ev) : option ev :=
+  fold_left (pick_step P) evs best.
+Definition pick (P : ev -> bool) (evs : list ev) : option ev := pick_from P None evs.
 
-(* value of column i: greatest-time assignment among events at or after t0 *)
+(* the latest INSERT or DELETE *)
+Definition latest_status (evs : list ev) : option ev := pick is_status evs.
+
+Definition assigns (i : nat) (e : ev) : bool :=
+  match nth_error (e_assign e) i with Some (Some _) => true | _ => false end.
+Definition is_del (e : ev) : bool := match e_kind e with EDel => true | _ => false end.
+
+(* value of column i: the greatest-time assignment among the statements at or after t0 *)
 Definition col_value (i : nat) (t0 : time) (evs : list ev) : sval :=
-  match fold_left (fun best e =>
-                     if (t0 <=? e_t e) && negb (match e_kind e with EDel => true | _ => false end) then
-                       match nth_error (e_assign e) i with
-                       | Some (Some v) =>
-                           match best with
-                           | Some (tb, _) => if tb <=? e_t e then Some (e_t e, v) else best
-                           | None => Some (e_t e, v)
-                           end
-                       | _ => best
-                       end
-                     else best) evs None with
-  | Some (_, v) => v
+  match pick (fun e => (t0 <=? e_t e) && negb (is_del e) && assigns i e) evs with
+  | Some e => match nth_error (e_assign e) i with Some (Some v) => v | _ => VNull end
   | None => VNull
   end.
 
